@@ -139,6 +139,36 @@ fn run(ctx: &RunCtx) -> Report {
     let target = target_of(&stored);
     let writer = all[rng.usize(0, all.len() - 1)];
     let writer_ip = *sim.node_addr(writer).ip();
+    // variant: a reader looked the key up before it was written (its lookup cache then remembers
+    // the responders of that time), a server joins afterwards, and later everything but that late
+    // joiner crashes: the reader knows a live acker only through its routing table
+    let warm = !large && all.len() >= 3 && rng.chance(1, 6);
+    let mut warm_reader: Option<HostId> = None;
+    let mut late_joiner: Option<HostId> = None;
+    let mut all = all;
+    let mut net = net;
+    if warm {
+        let candidates: Vec<HostId> = all.iter().copied().filter(|h| *h != writer).collect();
+        let r = candidates[rng.usize(0, candidates.len() - 1)];
+        let o = get(&sim, r, &stored);
+        sim.run_ops(&[o], sim.now() + 60 * SEC);
+        let ip = if plan.public { pub_ip(&mut rng) } else { priv_ip(30_000) };
+        let mut spec = NodeSpec::new(ip, 6881).server();
+        spec.bootstrap = vec![sim.node_addr(net.first).to_string()];
+        let j = sim.add_node(spec);
+        let b = sim.bootstrapped(j);
+        sim.run_ops(&[b], sim.now() + 60 * SEC);
+        // unrelated traffic through which the reader meets the newcomer
+        for _ in 0..3 {
+            let o = sim.find_node(r, rng.id());
+            sim.run_ops(&[o], sim.now() + 60 * SEC);
+        }
+        all.push(j);
+        net.servers.push(j);
+        warm_reader = Some(r);
+        late_joiner = Some(j);
+        report.probe("warm_cache_late_joiner_runs", 1);
+    }
     // variant: the writer announces the same info hash both ways at once (as a torrent client would)
     let both_announces = kind >= 2 && rng.chance(1, 5) && !large;
     let t_put = sim.now();
@@ -153,7 +183,7 @@ fn run(ctx: &RunCtx) -> Report {
     let mut puts = vec![op_put];
     puts.extend(op_put2);
     let put_done = sim.run_ops(&puts, sim.now() + 120 * SEC);
-    let what_base = format!("{plan:?} kind={kind} writer={} both_announces={both_announces}", sim.node_addr(writer));
+    let what_base = format!("{plan:?} kind={kind} writer={} both_announces={both_announces} warm_cache_late_joiner={warm}", sim.node_addr(writer));
     if !put_done {
         report.violate("hang", "put-did-not-return", format!("the put did not return; {what_base}"));
         return finish(&sim, report);
@@ -174,11 +204,19 @@ fn run(ctx: &RunCtx) -> Report {
     report.probe("ackers", acked.len() as u64);
 
     // crash set
-    let crash_mode = rng.below(6);
+    let crash_mode = if warm { 6 } else { rng.below(6) };
     let mut crashed: Vec<HostId> = vec![];
     let candidates: Vec<HostId> = all.clone();
     match crash_mode {
         0 => {}
+        6 => {
+            // every server but the late joiner
+            for h in &net.servers {
+                if Some(*h) != late_joiner && Some(*h) != warm_reader {
+                    crashed.push(*h);
+                }
+            }
+        }
         1 => {
             for h in &candidates {
                 if rng.chance(1, 3) {
@@ -222,7 +260,7 @@ fn run(ctx: &RunCtx) -> Report {
     }
     // some crashed servers come back empty on the same address (new id, fresh state)
     let mut restarted = vec![];
-    if !large && net.servers.len() + crashed.len() <= 20 {
+    if !large && !warm && net.servers.len() + crashed.len() <= 20 {
         for h in &crashed {
             if rng.chance(1, 4) && *h != net.first {
                 sim.run_for(rng.range(0, 2000) * MS);
@@ -231,7 +269,21 @@ fn run(ctx: &RunCtx) -> Report {
             }
         }
     }
-    sim.run_for(rng.range(0, 5) * SEC);
+    // time between the acknowledged write and the read
+    let gap = if warm {
+        rng.range(0, 60) * SEC
+    } else {
+        match rng.below(10) {
+            0..=4 => rng.range(0, 5) * SEC,
+            5..=7 => rng.range(46, 180) * SEC,
+            _ => rng.range(6, 20) * 60 * SEC,
+        }
+    };
+    sim.run_for(gap);
+    report.probe(if gap > 45 * SEC { "reads_later_than_45s" } else { "reads_within_45s" }, 1);
+    if let Some(r) = warm_reader {
+        reader_pool = vec![r];
+    }
     if reader_pool.is_empty() {
         report.vacuous = true;
         report.sample = Some(json!({"plan": what_base, "readers": 0}));
@@ -246,6 +298,13 @@ fn run(ctx: &RunCtx) -> Report {
     let graph = knows_graph_of(&sim, &live, kind != 3, kind == 3);
 
     let what = format!("{what_base} ackers={:?} crashed={:?} restarted={:?} crash_mode={crash_mode}", acked.iter().map(|h| sim.node_addr(*h)).collect::<Vec<_>>(), crashed.iter().map(|h| sim.node_addr(*h)).collect::<Vec<_>>(), restarted.iter().map(|h| sim.node_addr(*h)).collect::<Vec<_>>());
+    // adaptive-mode clients may have become servers meanwhile: with more than 20 storing nodes the
+    // deterministic verdict no longer applies (completeness is then probabilistic)
+    let servers_now = live.iter().filter(|h| sim.snapshot(**h).map(|s| s.server_mode).unwrap_or(false)).count();
+    let beyond_envelope = servers_now > 20 && !large;
+    if beyond_envelope {
+        report.probe("more_than_20_servers_after_adaptive_switch", 1);
+    }
     let mut any_judged = false;
     for reader in &readers {
         // precondition: a live acker other than the reader (and not restarted empty) is reachable
@@ -284,6 +343,10 @@ fn run(ctx: &RunCtx) -> Report {
         let ok = found(&sim, op, &stored, writer_ip);
         if !pre {
             report.probe("vacuous_reader_no_reachable_acker", 1);
+            continue;
+        }
+        if beyond_envelope {
+            report.probe(if ok { "beyond_envelope_found" } else { "beyond_envelope_not_found" }, 1);
             continue;
         }
         any_judged = true;
